@@ -64,6 +64,11 @@ def ladder_decl(rng, ty):
               [{"r": "bounds", "start": c[8], "end": None, "incl": False}]]
     if rng.random() < 0.5:
         shapes[0] = [{"r": "bounds", "start": None, "end": c[0], "incl": False}]
+    if rty.startswith("f") or rty.startswith("i"):
+        # an exact negative count first, written as an integer literal (also for the float types)
+        shapes.insert(0, [{"r": "exact", "v": (float if rty.startswith("f") else int)(min(int(c[0]) - rng.randint(3, 20), -1)), "form": "int"}])
+        if rty == "i8":
+            shapes[0][0]["v"] = max(shapes[0][0]["v"], -128)
     brs = [{"specs": sp, "segs": branch_segs(i)} for i, sp in enumerate(shapes)]
     brs.append({"specs": None, "fb": pick(rng, ["_", ".."]), "segs": branch_segs(len(brs))})
     return {"k": "range", "ty": ty, "branches": brs}
